@@ -512,7 +512,7 @@ func (d *DBFT[H]) onPrepareResponse(msg ConsensusPayload[H]) {
 	}
 
 	if d.IsPrimary() && !d.prepareSentTime.IsZero() && !d.recovering {
-		d.rttEstimates.addTime(time.Since(d.prepareSentTime))
+		d.rttEstimates.addTime(d.Timer.Now().Sub(d.prepareSentTime))
 	}
 
 	d.extendTimer(2)
